@@ -158,6 +158,16 @@ func (r *RolloutReconciler) Reconcile(ctx context.Context, req ctrl.Request) (ct
 	if err != nil {
 		return ctrl.Result{}, err
 	}
+	// A Progressing rollout that is being deleted or disabled changes its finalize reason, and with it the order of the
+	// clean-up tasks. The cursor left by the success / rollback sequence must not be interpreted in the new sequence
+	// (it would skip what the new sequence has earlier in its own order): the new clean-up starts from its first task.
+	// Every task is level-triggered, so tasks that are already done complete at once.
+	if newStatus != nil && rollout.Status.Phase == v1beta1.RolloutPhaseProgressing &&
+		(newStatus.Phase == v1beta1.RolloutPhaseTerminating || newStatus.Phase == v1beta1.RolloutPhaseDisabling) {
+		if sub := newStatus.GetSubStatus(); sub != nil {
+			sub.FinalisingStep = ""
+		}
+	}
 	if newStatus != nil {
 		err = r.updateRolloutStatusInternal(rollout, *newStatus)
 		if err != nil {
